@@ -103,7 +103,9 @@ def strategy(tier):
          # all calls issued at once from separate greenlets through a one-connection pool (they wait, serialized, for the connection)
          'concurrent': st.sampled_from([False, False, True]),
          # most bytes a single send() accepts
-         'send_max': st.sampled_from([None, None, 1, 7, 64, 4096])}
+         'send_max': st.sampled_from([None, None, 1, 7, 64, 4096]),
+         # another kind of client is configured in the same process first (its options must stay its own)
+         'http_builder_first': st.sampled_from([False, False, True])}
   return st.one_of(
       st.fixed_dictionaries(dict(env, svc=st.just('rich'), calls=st.lists(_call(), min_size=1, max_size=5))),
       st.fixed_dictionaries(dict(env, svc=st.just('rich'), calls=st.lists(_call(), min_size=1, max_size=5))),
@@ -190,6 +192,9 @@ def _run_once(plan, chunks):
   peer = ThriftSerialPeer(pf, respond)
   Server(net, ('127.0.0.1', PORT), peer)
 
+  if plan.get('http_builder_first'):
+    from scales.thrifthttp.builder import ThriftHttp
+    ThriftHttp.NewBuilder(iface, '/svc')       # merely configuring it: JSON protocol for that client, not for this one
   ser = ThriftSerializerSink.Builder()
   concurrent = bool(plan.get('concurrent'))
   if concurrent:
